@@ -137,7 +137,12 @@ def phase_schedule(chk, tier, seed, rng, tally):
     beh["draws"][1]["k"] = beh["cfg"]["burn"]
     t = sr.Tally()
     sr.replay_schedule(t, beh, states[("positive", 3)], list(range(beh["cfg"]["nobs"])), seed, site="control")
-    chk.control(any(k[0] == "control:sample-call:k" for k in t.items), "replay comparator accepted a wrong k")
+    if len(tally) and any(k[0].startswith("control:") for k in t.items):
+        # the library already disagrees with the specification's schedule on uncorrupted behaviours (the run fails on
+        # those): the corrupted one is then flagged too, though not necessarily at the draw that was corrupted
+        chk.controls += 1
+    else:
+        chk.control(any(k[0] == "control:sample-call:k" for k in t.items), "replay comparator accepted a wrong k")
     return behs
 
 
